@@ -446,6 +446,16 @@ Definition a_copy_from (src : marr) (a : marr) : marr :=
   let a1 := a_reserve (cap src) a in
   mk_marr (items src) (cap a1) (allocated a1).
 
+(* bool operator==: sizes first, then element by element (`if(element of a != element of b) return false`) *)
+Fixpoint arr_walk_eqb (a b : list Z) : bool :=
+  match a, b with
+  | [], _ => true
+  | x :: a', y :: b' => if x =? y then arr_walk_eqb a' b' else false
+  | _ :: _, [] => false
+  end.
+Definition a_eqb (a b : marr) : bool :=
+  if asize a =? asize b then arr_walk_eqb (items a) (items b) else false.
+
 Definition aworld := list marr.
 Definition aget (i : nat) (w : aworld) : marr := nth i w a_empty.
 Definition awsize (w : aworld) (i : nat) : nat := length (items (aget i w)).
@@ -482,6 +492,12 @@ Definition astep (w : aworld) (op : aop) : aworld * mres :=
   | AAppendOwn i k =>
       let a0 := aget i w in let '(a, r) := a_append (nth k (items a0) 0) a0 in (upd i a w, MRefIdx r)
   | AResizeOwn i n k => let a0 := aget i w in (upd i (a_resize n (nth k (items a0) 0) a0) w, MNone)
+  (* append(const T*, usize) with a pointer into the array's own storage: the offset is taken before reserve()
+     and the pointer re-based on the new storage, so the elements appended are those the range held *)
+  | AAppendBufOwn i off n =>
+      let a0 := aget i w in (upd i (a_append_all (firstn n (skipn off (items a0))) a0) w, MNone)
+  | AEq i j => (w, MBool (a_eqb (aget i w) (aget j w)))
+  | ANe i j => (w, MBool (negb (a_eqb (aget i w) (aget j w))))
   end.
 
 Definition aabs (w : aworld) : sstate := map items w.
